@@ -127,3 +127,42 @@ def shapeOK : Bool → Content → Bool
   | _, .child _ _ kids rest => shapeOK true kids && shapeOK false rest
 
 end Spec.Hyps
+
+namespace Spec.Hyps
+open Py Xs.Ns Xs.Sax Xs.Writer Spec.XmlNs Spec.EventTree
+
+/-! ### the same conditions on a flat event list -/
+
+/-- lexical condition on one event (cf. `contentOK`) -/
+def evLexOK (env : NsEnv) (d : Option Str) : Ev → Bool
+  | .start q => elemNameOK q
+  | .attr q v => attrOK env d (q, v)
+  | .data v => dataValOK v
+  | .end_ _ => true
+  | .unknown => false
+
+/-- every ATTR event directly follows a START or another ATTR event
+(`p`: the previous event was one of those) -/
+def attrsFollow : Bool → List Ev → Bool
+  | _, [] => true
+  | p, .attr _ _ :: r => p && attrsFollow true r
+  | _, .start _ :: r => attrsFollow true r
+  | _, .data _ :: r => attrsFollow false r
+  | _, .end_ _ :: r => attrsFollow false r
+  | _, .unknown :: r => attrsFollow false r
+
+/-- a DATA event that is not the first content event of its element carries no QName with a
+namespace (cf. `shapeOK`; `first`: the previous event was a START or ATTR) -/
+def lateOK : Bool → List Ev → Bool
+  | _, [] => true
+  | first, .data v :: r => (first || valNoNs v) && lateOK false r
+  | _, .start _ :: r => lateOK true r
+  | _, .attr _ _ :: r => lateOK true r
+  | _, .end_ _ :: r => lateOK false r
+  | _, .unknown :: r => lateOK false r
+
+/-- the decidable conditions on the event list of a document under which the writer theorems apply -/
+def eventsOK (env : NsEnv) (d : Option Str) (es : List Ev) : Bool :=
+  es.all (evLexOK env d) && attrsFollow false es && lateOK false es
+
+end Spec.Hyps
